@@ -146,6 +146,17 @@ def generate(repo, gen, verif):
     covered = sorted(set(sum(groups.values(), [])))
     groups["invalid"] = [o for o in range(256) if o not in covered]
 
+    # E5: private stdlib natives are reached by re-instantiating their file inside a harness module; an `include!`d file may
+    # not start with inner doc comments (`//!`), so those lines - comments only - are rewritten to `//`.
+    for rel in ("runtime/src/stdlib/string.rs",):
+        text = open(os.path.join(repo, rel)).read()
+        fixed = re.sub(r"(?m)^//!", "//", text)
+        if re.sub(r"(?m)^//", "", fixed) != re.sub(r"(?m)^//!?", "", text):
+            raise GenError("E5 changed more than doc-comment markers in " + rel)
+        dst = os.path.join(gen, os.path.basename(rel).replace(".rs", "_real.rs"))
+        if not os.path.exists(dst) or open(dst).read() != fixed:
+            open(dst, "w").write(fixed)
+
     inrepo = os.path.join(verif, "harness", "inrepo")
     parts = []
     parts.append("// GENERATED by /verif/lib/shellgen.py from %s -- do not edit\n" % info["path"])
@@ -172,7 +183,8 @@ def generate(repo, gen, verif):
     h = hashlib.sha256(info["body"].encode()).hexdigest()[:16]
     return {"run_rs": info["path"], "run_fast_body_sha256_16": h, "groups": {k: len(v) for k, v in groups.items()},
             "edits": ["E1 REGISTER_STACK_SIZE -> VERIF_REGS", "E2 stop-after-one-step + StepOut export", "E3 opcode fixed to const generic OP",
-                      "E4 dispatch table reduced to one group, include! paths made absolute"],
+                      "E4 dispatch table reduced to one group, include! paths made absolute",
+                      "E5 stdlib/string.rs copied with `//!` doc-comment markers turned into `//` (comments only) so it can be include!d"],
             "self_check": "undoing E1-E3 reproduces run_fast's text up to the dispatch table; table arms parsed without residue",
             "generated_op_harnesses": gen_h["count"]}
 
